@@ -562,3 +562,70 @@ Proof.
   destruct anns as [|a t]; [congruence|]. unfold bodies.
   cbn [map items_of render_groups flat_map fst snd app List.length Nat.ltb Nat.leb]. reflexivity.
 Qed.
+
+(* ---------------------------------------------------------------- key=value options *)
+(* one key=value option as written: the key has no blank and no '=', the value no blank (it may contain '=') *)
+Definition render_kv (kv : str * option str) : str :=
+  match snd kv with Some v => fst kv ++ 61 :: v | None => fst kv end.
+Definition nosp (x : str) : bool := forallb (fun c => negb (N.eqb c sp)) x.
+Definition kv_ok (kv : str * option str) : bool :=
+  negb (match fst kv with [] => true | _ => false end) && nosp (fst kv) && forallb (fun c => negb (N.eqb c 61)) (fst kv)
+  && match snd kv with Some v => nosp v | None => true end.
+
+Lemma dict_set_fresh d k v : ~ In k (map fst d) -> dict_set d k v = d ++ [(k, v)].
+Proof.
+  induction d as [|[a b] t IH]; intros H; [reflexivity|].
+  cbn [dict_set]. destruct (str_eqb a k) eqn:E.
+  - apply str_eqb_eq in E. subst. exfalso. apply H. left. reflexivity.
+  - cbn [app]. f_equal. apply IH. intros F. apply H. right. exact F.
+Qed.
+
+Lemma split1_render kv : kv_ok kv = true -> split1 61 (render_kv kv) [] = kv.
+Proof.
+  destruct kv as [k v]. unfold kv_ok, render_kv. cbn [fst snd]. intros H.
+  apply andb_true_iff in H. destruct H as [H _]. apply andb_true_iff in H. destruct H as [_ Hk].
+  destruct v as [v|].
+  - destruct (split1_nosep 61 k [] v Hk) as [A _]. rewrite A. reflexivity.
+  - destruct (split1_nosep 61 k [] [] Hk) as [_ B]. rewrite B. reflexivity.
+Qed.
+
+Lemma render_nosp kv : kv_ok kv = true -> forallb (fun c => negb (N.eqb c sp)) (render_kv kv) = true.
+Proof.
+  destruct kv as [k v]. unfold kv_ok, render_kv, nosp. cbn [fst snd]. intros H.
+  apply andb_true_iff in H. destruct H as [H Hv]. apply andb_true_iff in H. destruct H as [H _].
+  apply andb_true_iff in H. destruct H as [_ Hk].
+  destruct v as [v|]; [|exact Hk].
+  rewrite forallb_app. rewrite Hk. cbn [forallb]. rewrite Hv. reflexivity.
+Qed.
+
+Lemma fold_dict kvs : forall acc,
+  Forall (fun kv => kv_ok kv = true) kvs -> NoDup (map fst acc ++ map fst kvs) ->
+  fold_left (fun d p => let '(k, v) := split1 61 p [] in dict_set d k v) (map render_kv kvs) acc = acc ++ kvs.
+Proof.
+  induction kvs as [|kv t IH]; intros acc H N; [rewrite app_nil_r; reflexivity|].
+  inversion H as [|x y Hkv Ht]; subst. cbn [map fold_left]. rewrite (split1_render kv Hkv).
+  destruct kv as [k v]. cbn [map fst] in N.
+  rewrite dict_set_fresh.
+  - rewrite IH; [rewrite <- app_assoc; reflexivity | exact Ht |].
+    rewrite map_app. cbn [map fst]. rewrite <- app_assoc. exact N.
+  - intros F. apply NoDup_remove_2 in N. apply N. apply in_or_app. left. exact F.
+Qed.
+
+(* key=value options come back as written, in order, a value that itself contains '=' included *)
+Theorem options_dict_roundtrip kvs :
+  Forall (fun kv => kv_ok kv = true) kvs -> NoDup (map fst kvs) -> kvs <> [] ->
+  parse_options_dict (Some (join_sp (map render_kv kvs))) = kvs.
+Proof.
+  intros H N Hne. unfold parse_options_dict.
+  destruct (join_sp (map render_kv kvs)) as [|c r] eqn:J.
+  - exfalso. destruct kvs as [|[k v] t]; [congruence|]. inversion H as [|x y Hkv _]; subst.
+    unfold kv_ok in Hkv. cbn [fst snd] in Hkv. destruct k as [|c0 k']; [discriminate|].
+    cbn [map] in J. unfold render_kv at 1 in J. cbn [fst snd] in J. destruct v; destruct t; cbn in J; discriminate.
+  - rewrite <- J. rewrite split_sp_join.
+    + match goal with |- fold_left _ ?m _ = _ =>
+        assert (E : m = map render_kv kvs) by (destruct (map render_kv kvs); reflexivity); rewrite E end.
+      rewrite (fold_dict kvs [] H); [reflexivity | exact N].
+    + apply Forall_forall. intros p Hp. apply in_map_iff in Hp. destruct Hp as [kv [<- Hin]].
+      rewrite Forall_forall in H. apply render_nosp. exact (H kv Hin).
+    + destruct kvs; [congruence|discriminate].
+Qed.
